@@ -24,6 +24,7 @@ where
     consumed: usize,  // bytes consumed from `buffer`
     remaining: usize, // bytes remaining until next chunk
     reached_eof: bool,
+    failed: bool, // a read failed, the position in the stream is unknown
 }
 
 impl<R> ChunkedReader<R>
@@ -37,6 +38,7 @@ where
             consumed: 0,
             remaining: 0,
             reached_eof: false,
+            failed: false,
         }
     }
 
@@ -47,6 +49,31 @@ where
         }
         parse_chunk_size(&self.buffer)
     }
+
+    fn read_chunk(&mut self) -> io::Result<()> {
+        #[cfg(not(kani))]
+        const MAX_BUFFER_LEN: usize = 64 * 1024;
+        #[cfg(kani)]
+        const MAX_BUFFER_LEN: usize = crate::verif::MAX_BUFFER_LEN;
+
+        if self.remaining == 0 {
+            self.remaining = self.read_chunk_size()?;
+            if self.remaining == 0 {
+                self.reached_eof = true;
+            }
+        }
+
+        self.buffer.resize(cmp::min(self.remaining, MAX_BUFFER_LEN), 0);
+        self.inner.read_exact(&mut self.buffer)?;
+        self.consumed = 0;
+        self.remaining -= self.buffer.len();
+
+        if self.remaining == 0 && !buffers::read_line_ending(&mut self.inner)? {
+            return Err(InvalidResponseKind::Chunk.into());
+        }
+
+        Ok(())
+    }
 }
 
 impl<R> BufRead for ChunkedReader<R>
@@ -54,29 +81,18 @@ where
     R: Read,
 {
     fn fill_buf(&mut self) -> io::Result<&[u8]> {
-        #[cfg(not(kani))]
-        const MAX_BUFFER_LEN: usize = 64 * 1024;
-        #[cfg(kani)]
-        const MAX_BUFFER_LEN: usize = crate::verif::MAX_BUFFER_LEN;
+        if self.failed {
+            return Err(InvalidResponseKind::Chunk.into());
+        }
 
         if self.buffer.len() == self.consumed && !(self.remaining == 0 && self.reached_eof) {
-            if self.remaining == 0 {
-                self.remaining = self.read_chunk_size()?;
-                if self.remaining == 0 {
-                    self.reached_eof = true;
-                }
-            }
-
-            self.buffer.resize(cmp::min(self.remaining, MAX_BUFFER_LEN), 0);
-            self.inner.read_exact(&mut self.buffer)?;
-            self.consumed = 0;
-            self.remaining -= self.buffer.len();
-
-            if self.remaining == 0 && !buffers::read_line_ending(&mut self.inner)? {
+            if let Err(err) = self.read_chunk() {
+                // We cannot resynchronize with the stream after a failed read. Drop the partial
+                // data instead of handing it out and make all further reads fail.
                 self.buffer.clear();
-                self.reached_eof = true;
-
-                return Err(InvalidResponseKind::Chunk.into());
+                self.consumed = 0;
+                self.failed = true;
+                return Err(err);
             }
         }
 
